@@ -156,6 +156,59 @@ def src_loc(vd, line):
     return 'woven:%d' % line
 
 
+def vacuity():
+    """every woven function gets `assert(false)` as its first statement; each one must FAIL.  A function where it
+    verifies has a contradictory precondition or the axioms are inconsistent.  -> (n_functions, [vacuous fn ids])"""
+    w = W.weave(REPO, CONTRACTS, extra_modules=lemma_modules())
+    fns = V.fn_table(w.text)
+    lines = w.text.split('\n')
+    targets = []
+    m = V.mask(w.text)
+    starts = [0]
+    for mm in re.finditer('\n', w.text):
+        starts.append(mm.end())
+    edits = []
+    for f in fns:
+        if f.mode not in ('exec', 'proof') or f.external:
+            continue
+        if f.trait_impl and f.trait_impl.startswith('decl:'):
+            continue
+        # position of the body's opening brace: first '{' at depth 0 on/after body_lo line start
+        a = starts[f.lo - 1]
+        b = starts[f.hi] if f.hi < len(starts) else len(w.text)
+        seg = m[a:b]
+        k = seg.find('{')
+        # the body brace is the one whose matching close is the last '}' of the item
+        pos = None
+        j = a
+        while True:
+            k = m.find('{', j, b)
+            if k < 0:
+                break
+            try:
+                e = V.match_close(m, k)
+            except Exception:
+                break
+            if e >= b - 3 or m[e + 1:b].strip() == '':
+                pos = k
+                break
+            j = k + 1
+        if pos is None:
+            continue
+        stmt = ' proof { assert(false); } ' if f.mode == 'exec' else ' assert(false); '
+        edits.append((pos + 1, stmt))
+        targets.append(f)
+    text = w.text
+    for pos, stmt in sorted(edits, reverse=True):
+        text = text[:pos] + stmt + text[pos:]
+    res = V.run_verus(text, rlimit=40, timeout=2400)
+    fns2 = V.fn_table(text)
+    diags = V.classify(res, text, fns2)
+    failed_ids = set(d.fn.id for d in diags if d.fn is not None)
+    vac = [f.id for f in targets if f.id not in failed_ids]
+    return len(targets), vac, res
+
+
 def dev(filter_):
     vd = verus_verdict('quick', use_cache=False)
     res = vd['res']
@@ -185,8 +238,13 @@ def main():
     ap.add_argument('--replay')
     ap.add_argument('--dev', nargs='?', const='', default=None)
     ap.add_argument('--make-ledger', action='store_true')
+    ap.add_argument('--vacuity', action='store_true')
     ap.add_argument('--make-trusted', action='store_true')
     a = ap.parse_args()
+    if a.vacuity:
+        n, vac, res = vacuity()
+        print('vacuity pass: %d functions got assert(false); %d verified it (vacuous): %s; verus errors=%s wall=%.1fs' % (n, len(vac), vac[:20], res.get('errors'), res['wall_s']))
+        return 0 if not vac else 2
     if a.make_ledger or a.make_trusted:
         vd = verus_verdict('quick', use_cache=False)
         if a.make_trusted:
